@@ -52,7 +52,7 @@ pub fn quantize_linear(c: &Ctx) -> R {
         let z = zp.map(|z| z.val(j)).unwrap_or(0.0);
         let q = x.f[k] / s;
         out.push(sat(round_half_even(q) + z, out_dt));
-        slack.push(near_tie(q, is_pow2(s)));
+        slack.push(near_tie(q, is_pow2(s)) as u8);
     }
     Ok(vec![Expect { t: T::new_i(out_dt, &x.shape, out), tol: TolKind::IntSlack(slack) }])
 }
@@ -94,12 +94,13 @@ pub fn dynamic_quantize_linear(c: &Ctx) -> R {
     for v in &x.f {
         let q = v / scale;
         out.push(sat(round_half_even(q) + zp, DType::U8));
-        slack.push(zp_slack || near_tie(q, false));
+        // the zero point and the element are rounded separately
+        slack.push(zp_slack as u8 + near_tie(q, false) as u8);
     }
     Ok(vec![
         Expect { t: T::new_i(DType::U8, &x.shape, out), tol: TolKind::IntSlack(slack) },
         T::new_f(DType::F32, &[], vec![scale]).into(),
-        Expect { t: T::new_i(DType::U8, &[], vec![zp as i64]), tol: TolKind::IntSlack(vec![zp_slack]) },
+        Expect { t: T::new_i(DType::U8, &[], vec![zp as i64]), tol: TolKind::IntSlack(vec![zp_slack as u8]) },
     ])
 }
 
